@@ -70,6 +70,9 @@ type c02Case struct {
 	InCase    bool `json:"in_case,omitempty"`
 	// PerAfter / PerTypedef (path "../per"): the leaf pointed at is written after the leafref (after the uses), and takes
 	// its type from a typedef of its own container that states a default and units
+	// DeviateUse > 0 (a grouping used at least twice, the leaf not in a case): a deviation replaces the type of leaf x in
+	// that use (1 = the first) by boolean; every other expansion keeps the type it has
+	DeviateUse int  `json:"deviate_use,omitempty"`
 	PerAfter   bool `json:"per_after,omitempty"`
 	PerTypedef bool `json:"per_typedef,omitempty"`
 	// InCase2 (with InCase): the case holds a second choice and the leaf sits in a case of that one ("case"), or directly
@@ -315,6 +318,9 @@ func c02Gen(t *rapid.T) c02Case {
 	}
 	c.InCase = rapid.IntRange(0, 3).Draw(t, "in-case") == 0
 	c.PerAfter, c.PerTypedef = rapid.Bool().Draw(t, "per-after"), rapid.Bool().Draw(t, "per-typedef")
+	if c.Grouping && c.Uses > 1 && !c.InCase && rapid.IntRange(0, 3).Draw(t, "deviate-a-use") == 0 {
+		c.DeviateUse = rapid.IntRange(1, c.Uses).Draw(t, "deviate-use")
+	}
 	if c.InCase {
 		c.InCase2 = rapid.SampledFrom([]string{"", "case", "short"}).Draw(t, "in-case2")
 	}
@@ -603,6 +609,13 @@ func (c c02Case) files() map[string]string {
 		m.WriteString(c.leafYang("  "))
 		m.WriteString(" }\n")
 	}
+	if c.DeviateUse > 0 && c.Grouping && c.DeviateUse <= c.Uses && !c.InCase {
+		name := "inner"
+		if c.DeviateUse > 1 {
+			name = fmt.Sprintf("inner%d", c.DeviateUse)
+		}
+		fmt.Fprintf(&m, " deviation \"/outer/%s/x\" {\n  deviate replace {\n   type boolean;\n  }\n }\n", name)
+	}
 	m.WriteString("}\n")
 	return map[string]string{"main.yang": m.String(), "sub.yang": sub.String(), "imp.yang": imp.String()}
 }
@@ -837,6 +850,19 @@ func c02Run(c c02Case, o *hx.Obs) {
 		cu.refinedHere = c.RefineUse == u+1
 		if cu.refinedHere {
 			o.Class("a use refines the default")
+		}
+		if c.DeviateUse == u+1 && c.Grouping && !c.InCase {
+			// this expansion had its type replaced by a deviation: it is boolean now, and the others are looked at as ever
+			o.Class("a deviation replaces the type in one use")
+			wantFmt := val.FmtBool
+			if c.LeafList {
+				wantFmt = val.FmtBoolList
+			}
+			if got := leaf.Type().Format(); got != wantFmt {
+				fail("deviated-type", "a deviation replaced the type by boolean, Format() is %v", got)
+				return
+			}
+			continue
 		}
 		o.Guard("effective type of "+name+"/x", func() { c02CheckLeaf(cu, leaf, fail) })
 	}
